@@ -715,6 +715,10 @@ func (ctx *actorContext) tryRestarted() {
 		return
 	}
 
+	// the new instance is obtained first: a provider that fails must not leave behind an old instance that has already handled
+	// its own OnTerminated (it would handle OnTerminate and OnTerminated again when the actor is terminated later)
+	next := ctx.provider.Provide()
+
 	ctx.processMessage(ctx.sender, ctx.ref, onTerminate, false)
 	ctx.processMessage(ctx.sender, ctx.ref, &OnTerminated{ctx.ref}, false)
 
@@ -726,7 +730,7 @@ func (ctx *actorContext) tryRestarted() {
 
 	ctx.internalPersistence()
 
-	ctx.actor = ctx.provider.Provide()
+	ctx.actor = next
 	if ctx.scheduler != nil {
 		ctx.scheduler.Clear()
 	}
